@@ -65,7 +65,7 @@ def grid(m, g):
     0 strictly increasing, 1 with a REPEATED point (m >= 3), 2 UNSORTED (first and last swapped, m >= 2);
     g // 72 = coordinate scale / offset (see `_scaled`)."""
     base, style = g % 8, (g // 8) % 3
-    t = np.arange(m, dtype=float) + base / 8.0
+    t = np.arange(m, dtype=float) + base / 8.0 + ((g // 24) % 3) / 64.0      # the naming style moves the grid a little too
     t[1:-1] += base / 16.0
     if style == 1 and m >= 3:
         t[2] = t[1]
